@@ -232,6 +232,7 @@ type outcome struct {
 	twinCode     codes.Code
 	note         string
 	authorised   bool
+	twinPanic    string
 }
 
 // runCase checks one generated case. pristine receives only requests that must
@@ -259,6 +260,9 @@ func runCase(t fataler, svc *service, pristine, live target, c tcase, strict boo
 		before := pristine.observe()
 		calls := pristine.effects().n()
 		res := m.invoke(pristine.server(), req)
+		if res.panicked != nil {
+			t.Fatalf("%s: unauthorised request made the handler panic\ncase: %v (%s)\nresult: %v", svc.name, c, note, res)
+		}
 		if res.err == nil {
 			t.Fatalf("%s: unauthorised request was SERVED\ncase: %v (%s)\nresult: %v\ndependency calls: %s",
 				svc.name, c, note, res, pristine.effects().since(calls))
@@ -299,6 +303,10 @@ func runCase(t fataler, svc *service, pristine, live target, c tcase, strict boo
 	}
 	out.twinEffect = live.observe() != before
 	out.twinExecuted = out.twinEffect || res.err == nil
+	if res.panicked != nil {
+		// Not a C32 matter (the request IS authorised), but worth knowing about.
+		out.twinPanic = fmt.Sprintf("authorised-%s-panics:%v", c.Method, res.panicked)
+	}
 	return out
 }
 
@@ -315,6 +323,9 @@ func (o outcome) labels(c tcase) []string {
 	}
 	if o.note != "" {
 		ls = append(ls, "note:"+o.note)
+	}
+	if o.twinPanic != "" {
+		ls = append(ls, o.twinPanic)
 	}
 	if o.authorised {
 		ls = append(ls, "authorised")
